@@ -239,8 +239,11 @@ struct Encoding<Table, EnableIfHasEntryList<Table>> : EncodingIO<Table> {
       if (!status)
         return status;
 
-      // Default construct the entry;
-      *entry = T{};
+      // Default construct the entry. Assign an engaged Optional<T> rather than
+      // a T: when T is itself an Optional<U>, assigning T{} selects the
+      // converting assignment from an empty Optional<U> and leaves the entry
+      // empty, so the value read below would be lost.
+      *entry = Optional<T>{InPlace{}};
 
       // Use a BoundedReader to handle any padding that might follow the
       // value and catch invalid sizes while decoding inside the binary
